@@ -126,7 +126,10 @@ def run(chk) -> None:
         g_ok = all(len(g) == 1 and g[0].polarity and norm(g[0].test) in (f"{s}.strand5p.first == {s}.strand5p.last", f"{s}.strand5p.last == {s}.strand5p.first", f"{s}.strand3p.first == {s}.strand3p.last") for g in guards)
         skip = [n for st in stem_loop[0].body for n in ast.walk(st) if isinstance(n, (ast.Break, ast.Continue))]
         ok = src_ok and vals == want and g_ok and not skip
-    chk.expect(
+    if not (len(stem_loop) == 1 and len(apps) == 2):
+        chk.error("isolated-select", wi.where, "selection idiom not recognised (expected one loop over the stems appending both ends to to_unpair)")
+    else:
+      chk.expect(
         ok,
         "isolated-select",
         wi.where,
@@ -134,7 +137,7 @@ def run(chk) -> None:
         "the positions to unpair are not exactly strand5p.first-1 and strand3p.first-1 of every stem with first == last",
         K(wi, "select"),
         found=found,
-    )
+      )
     # entries: fresh Entry per entry
     e_def = astq.first_assign(wi.node, "entries")
     fresh = False
